@@ -47,6 +47,23 @@ ODDSTR = [b'${nope}', b'$x', b'${', b'${}', b'multi\nline', b'${robsddir', b'a$'
 WS = [b' ', b' ', b' ', b'\t', b'  ', b'\n', b' \t ', b'\r', b'\x0b', b'\x0c', b'\n\n']
 
 
+# boundary sizes and counts (Gen.boundary): where a fixed buffer, a power-of-two growth step or an off-by-one bites
+LENS = [1, 254, 255, 256, 1023, 1024, 1025, 4095, 4096, 4097, 8191, 8192, 8193]
+LENS_BIG = [16383, 16384, 16385]
+COUNTS = [0, 1, 15, 16, 17, 31, 32, 33, 63, 64, 65, 255, 256]
+BOUNDARY_CLASSES = ['string-len', 'list-count', 'regress-count', 'option-list-count', 'step-count', 'step-args-count', 'path-len', 'step-name-len',
+                    'name-family', 'int-boundary', 'timeout-boundary', 'dir-len', 'user-len', 'keyword-len', 'file-size', 'file-shape', 'line-number',
+                    'v-count', 'v-len', 'v-family', 'template-shape', 'execdir-len']
+# classes that exist in some modes only (default: all)
+BOUNDARY_MODES = {'regress-count': ('robsd-regress',), 'option-list-count': ('robsd-regress',), 'path-len': ('robsd-regress',),
+                  'timeout-boundary': ('robsd-regress',), 'step-count': ('canvas',), 'step-args-count': ('canvas',), 'step-name-len': ('canvas',),
+                  'name-family': ('robsd-regress', 'canvas'), 'user-len': ('robsd', 'robsd-ports', 'robsd-regress')}
+
+
+def unq(t):
+    return t[1:-1]
+
+
 def q(s):
     return b'"' + s + b'"'
 
@@ -58,10 +75,17 @@ class Gen:
     # ---- values
     def string(self, odd=0.12):
         r = self.rng
+        if r.random() < 0.015:
+            # a boundary length in ANY string position of ANY configuration (also reaches the lanes of C12 that take their
+            # configurations from entries()); up to 1025 bytes here, the larger sizes are classes of boundary()
+            return self.sized(r.choice([1, 127, 128, 129, 254, 255, 256, 511, 512, 513, 1023, 1024, 1025]))
         return r.choice(ODDSTR) if r.random() < odd else r.choice(GOODSTR)
 
     def strlist(self, lo=0, hi=3, odd=0.05):
-        return [self.string(odd) for _ in range(self.rng.randint(lo, hi))]
+        r = self.rng
+        if r.random() < 0.015:
+            return [b'e%d' % i for i in range(r.choice([15, 16, 17, 31, 32, 33, 63, 64, 65]))]      # list vector growth steps
+        return [self.string(odd) for _ in range(r.randint(lo, hi))]
 
     def listtoks(self, items):
         return [b'{'] + [q(s) for s in items] + [b'}']
@@ -251,6 +275,347 @@ class Gen:
             ents = [e for i, e in enumerate(ents) if e[0] != b'bsd-srcdir' or i == len(ents) - 1]
             label += '-parse'
         return label, self.render(ents, plain=r.random() < 0.5)
+
+    # ---- boundary classes: sizes, counts, integers, name families, file shapes (see BOUNDARY_CLASSES)
+    def sized(self, n, last=b'Z'):
+        """exactly n bytes of [a-z0-9] ending in a byte that occurs nowhere else: a copy through a buffer one byte short, or a
+        comparison that stops early, shows"""
+        if n <= 0:
+            return b''
+        a = b'abcdefghijklmnopqrstuvwxyz0123456789'
+        return bytes(a[(i * 7 + 3) % 36] for i in range(n - 1)) + last
+
+    def pick_len(self, lens=None, big=False, cap=None):
+        """a boundary length; the extracted model's cost on one string is quadratic (4096 bytes: 0.1 s, 8192: 0.5 s, 16384: 3 s per
+        parse, 65536: minutes), hence the cap at 8193 in the quick tier and 16385 when [big]; the small sizes come more often"""
+        r = self.rng
+        lens = lens or (LENS + (LENS_BIG if big else []))
+        if cap:
+            lens = [n for n in lens if n <= cap]
+        w = [6 if n <= 1025 else (3 if n <= 4097 else (1 if n <= 8193 else 0.5)) for n in lens]
+        return r.choices(lens, w)[0]
+
+    def pick_count(self, counts=None):
+        r = self.rng
+        counts = counts or COUNTS
+        return r.choices(counts, [1 if n >= 255 else 4 for n in counts])[0]
+
+    def minimal(self, mode, root=b'/'):
+        """the smallest valid configuration of a mode, rooted in a directory that exists everywhere: its size in bytes is known
+        when the case is generated (no @R@)"""
+        return {'robsd': [[b'robsddir', q(root)], [b'destdir', q(root)]],
+                'robsd-cross': [[b'robsddir', q(root)], [b'crossdir', q(b'x')]],
+                'robsd-ports': [[b'robsddir', q(root)], [b'chroot', q(root)], [b'ports'] + self.listtoks([b'p']), [b'ports-user', q(b'root')]],
+                'robsd-regress': [[b'robsddir', q(root)], [b'regress', q(b'a')]],
+                'canvas': [[b'canvas-name', q(b'n')], [b'canvas-dir', q(root)], [b'step', q(b's'), b'command'] + self.listtoks([b'true'])]}[mode]
+
+    def literal_steps(self, ents):
+        """every canvas step gets the command { "echo" "STEP<k>" }, k its position: what ran is then known from the output (C10)"""
+        k = 0
+        for e in ents:
+            if e[0] == b'step':
+                k += 1
+                par = [b'parallel'] if b'parallel' in e[2:] else []
+                e[2:] = par + [b'command'] + self.listtoks([b'echo', b'STEP%d' % k])
+
+    def boundary(self, mode, ents, st, want=None, size=None, big=False, cap=None):
+        """ONE boundary class applied to the valid configuration [ents] of [mode].  Returns a dict: label (the class, printed into
+        the input distribution), ents (what is configured now - C10 derives the expected schedule from it), text, and optionally
+        vars (-v definitions), stdin (a template of its own), literal (every canvas step prints its position), valid (False when
+        the class is an error on purpose).  [want] selects the class, [size] the length / count / value index (corpus), [cap] bounds
+        the generated string lengths (a harness that asks the model a dozen questions per case: C10).
+        Caps (said where they bite): strings <= 8193 bytes (16385 when [big]) because of the model's cost; no payload that makes a
+        DIAGNOSTIC longer than ~480 bytes (warnx goes through a 512-byte vsnprintf which the model does not transcribe - TRUSTED of
+        c08.py), so unknown keywords / unknown users / failing paths stop at 256 bytes and long names are always DEFINED ones."""
+        r = self.rng
+        ents = [list(e) for e in ents]
+        avail = [c for c in BOUNDARY_CLASSES if c not in BOUNDARY_MODES or mode in BOUNDARY_MODES[c]]
+        cls = want or r.choice(avail)
+        if cls not in avail:
+            cls = 'string-len'
+        out = {'valid': True}
+        plain = r.random() < 0.5
+        text = None
+
+        def drop(kw):
+            return [e for e in ents if e[0] != kw]
+
+        def put(e, first=False):
+            # behind the root directory (its value is what later entries refer to)
+            at = 0
+            for i, x in enumerate(ents):
+                if x[0] in (b'robsddir', b'canvas-dir'):
+                    at = i + 1
+            ents.insert(at if first else r.randint(at, len(ents)), e)
+        if cls == 'string-len':
+            n = size or self.pick_len(big=big, cap=cap)
+            kw = {'robsd': b'kernel', 'robsd-cross': b'crossdir', 'robsd-ports': b'cvs-root', 'robsd-regress': b'sudo', 'canvas': b'canvas-name'}[mode]
+            k = r.random()
+            if k < 0.5:
+                ents = drop(kw)
+                put([kw, q(self.sized(n))])
+            elif k < 0.75 and n > 8:
+                ents = drop(kw)
+                put([kw, q(self.sized(n - 7) + b'${arch}')])          # the token has n bytes, its value grows while interpolating
+            else:
+                ents = drop(b'hook')
+                put([b'hook'] + self.listtoks([b'x', self.sized(n), b'y']))
+            out['label'] = 'string-len %d' % n
+        elif cls == 'list-count':
+            n = self.pick_count() if size is None else size
+            kw = r.choice([b'hook', b'skip'] + ([b'ports'] if mode == 'robsd-ports' else []) + ([b'regress-env'] if mode == 'robsd-regress' else []))
+            ents = drop(kw)
+            put([kw] + self.listtoks([b'i%d' % i for i in range(n)]))
+            out['label'] = 'list-count %d' % n
+        elif cls == 'regress-count':
+            n = self.pick_count([1, 15, 16, 17, 31, 32, 33, 63, 64, 65, 255, 256]) if size is None else size
+            ents = drop(b'regress')
+            paths = [b't/%03d' % i for i in range(n)]
+            for p in paths:
+                e = [b'regress', q(p)]
+                if r.random() < 0.3:
+                    e.append(b'no-parallel')
+                if r.random() < 0.1:
+                    e += [b'env'] + self.listtoks([b'N=' + p])
+                ents.append(e)
+            st['paths'] = [paths[-1], paths[0], paths[len(paths) // 2]] + st['paths']
+            out['label'] = 'regress-count %d' % n
+        elif cls == 'option-list-count':
+            n = self.pick_count() if size is None else size
+            p = b'opt/count'
+            opt = r.choice([b'env', b'targets', b'packages', b'obj'])
+            put([b'regress', q(p), opt] + self.listtoks([b'V%d=%d' % (i, i) if opt == b'env' else b't%d' % i for i in range(n)]))
+            st['paths'] = [p] + st['paths']
+            out['label'] = 'option-list-count %d' % n
+        elif cls == 'step-count':
+            n = self.pick_count([1, 15, 16, 17, 31, 32, 33, 63, 64, 65, 255, 256]) if size is None else size
+            ents = drop(b'step')
+            for i in range(n):
+                ents.append([b'step', q(b's%03d' % i)] + ([b'parallel'] if r.random() < 0.3 else []) + [b'command'] + self.listtoks([b'true']))
+            self.literal_steps(ents)
+            out['literal'] = True
+            out['label'] = 'step-count %d' % n
+        elif cls == 'step-args-count':
+            n = self.pick_count([1, 2, 15, 16, 17, 31, 32, 33, 63, 64, 65, 255, 256]) if size is None else size
+            put([b'step', q(b'manyargs'), b'command'] + self.listtoks([b'echo'] + [b'a%d' % i for i in range(n - 1)]))
+            out['label'] = 'step-args-count %d' % n
+        elif cls == 'path-len':
+            # regress-<path>-<suffix> is 9..17 bytes longer than the path: the names cross 255/256, 1023/1024, 4095/4096 for path
+            # lengths just below; a companion path that is the long one minus its last byte carries other options
+            lens = [1, 2] + list(range(236, 246)) + [254, 255, 256] + list(range(1005, 1014)) + [1023, 1024, 1025] + list(range(4077, 4086)) + [4095, 4096, 4097]
+            lens = [x for x in lens if not cap or x <= cap]
+            n = size or r.choices(lens, [3 if x <= 256 else (2 if x <= 1025 else 1) for x in lens])[0]
+            p = b'lib/' + self.sized(n - 4) if n > 5 else self.sized(n)
+            comp = p[:-1] if n > 1 else b'z'
+            ents = [e for e in ents if not (e[0] == b'regress' and unq(e[1]) in (p, comp))]
+            a = [b'regress', q(p), b'no-parallel', b'env'] + self.listtoks([b'WHO=long']) + [b'quiet', b'targets'] + self.listtoks([b'tlong'])
+            b = [b'regress', q(comp), b'root', b'env'] + self.listtoks([b'WHO=comp']) + [b'targets'] + self.listtoks([b'tcomp'])
+            two = [a, b]
+            r.shuffle(two)
+            for e in two:
+                put(e)
+            st['paths'] = [p, comp] + st['paths']
+            # a template of its own: only names that are defined (an unknown 4 KiB name would be quoted in a diagnostic)
+            lines = [b'regress-' + x + b'-' + s + b'=<${regress-' + x + b'-' + s + b'}>' for x, ss in ((p, (b'env', b'targets', b'parallel', b'quiet')), (comp, (b'env', b'targets', b'root')))
+                     for s in ss]
+            lines += [b'regress=<${regress}>', b'keep=<${keep}>']
+            r.shuffle(lines)
+            out['stdin'] = b'\n'.join(lines) + b'\n'
+            out['label'] = 'path-len %d' % n
+        elif cls == 'step-name-len':
+            n = size or self.pick_len([x for x in LENS if x <= 4097] + ([8191, 8192, 8193] if big else []), cap=cap)    # the model needs 5 s for a schedule with an 8 KiB name
+            nm = self.sized(n)
+            comp = nm[:-1] if n > 1 else b'y'
+            two = [[b'step', q(nm), b'command'] + self.listtoks([b'true'])], [[b'step', q(comp), b'command'] + self.listtoks([b'true'])]
+            two = [t[0] for t in two]
+            r.shuffle(two)
+            for e in two:
+                put(e)
+            self.literal_steps(ents)
+            out['literal'] = True
+            out['label'] = 'step-name-len %d' % n
+        elif cls == 'name-family':
+            fams = {'case': [b'bin/ksh', b'bin/KSH', b'Bin/ksh', b'BIN/KSH'],
+                    'adjacent': [b'a', b'a-', b'a.', b'a/', b'a0', b'a_', b'a\x7f', b'`'],
+                    'separator': [b'x=y', b'x,y', b'x-y', b'x.y', b'x/y', b'x y', b'x', b'y'],
+                    'suffix-collision': [b'a', b'a-env', b'a-targets', b'a-parallel', b'a-quiet', b'a-root']}
+            which = r.choice(sorted(fams)) if size is None else sorted(fams)[size % len(fams)]
+            fam = list(fams[which])
+            r.shuffle(fam)
+            fam = fam[:r.randint(3, len(fam))] if size is None else fam
+            if mode == 'canvas':
+                for nm in fam:
+                    put([b'step', q(nm), b'command'] + self.listtoks([b'true']))
+                self.literal_steps(ents)
+                out['literal'] = True
+            else:
+                for i, nm in enumerate(fam):
+                    e = [b'regress', q(nm)]
+                    if i % 2:
+                        e.append(b'no-parallel')
+                    e += [b'env'] + self.listtoks([b'WHO=%d' % i])
+                    if i % 3 == 0:
+                        e += [b'targets'] + self.listtoks([b't%d' % i])
+                    put(e)
+                st['paths'] = fam[:4] + st['paths']
+            out['label'] = 'name-family ' + which
+        elif cls == 'int-boundary':
+            vals = [b'0', b'1', b'2147483646', b'2147483647', b'2147483648', b'4294967295', b'4294967296', b'4294967297', b'9223372036854775807',
+                    b'9223372036854775808', b'18446744073709551615', b'18446744073709551616', b'18446744073709551617', b'00', b'07', b'0' * 9 + b'7',
+                    b'0' * 10 + b'7', b'0' * 19 + b'7', b'0' * 20 + b'7', b'0' * 1023 + b'7', b'0' * 4096 + b'1', b'0000000000002147483647',
+                    b'0000000000002147483648', b'2147483647' + b'0', b'214748364' + b'8']
+            i = r.randrange(len(vals)) if size is None else size % len(vals)
+            kw = r.choice([b'keep', b'stat-interval'])
+            ents = drop(kw)
+            put([kw, vals[i]])
+            out['valid'] = int(vals[i]) <= 2147483647
+            out['label'] = 'int-boundary ' + (vals[i].decode() if len(vals[i]) < 24 else '%d digits' % len(vals[i]))
+        elif cls == 'timeout-boundary':
+            vals = [(b'0', b's'), (b'1', b's'), (b'2147483647', b's'), (b'2147483648', b's'), (b'35791394', b'm'), (b'35791395', b'm'), (b'596523', b'h'),
+                    (b'596524', b'h'), (b'4294967296', b's'), (b'4294967297', b'm'), (b'71582789', b'm'), (b'1193047', b'h'), (b'0', b'h'),
+                    (b'9223372036854775807', b's'), (b'0' * 20 + b'1', b'h')]
+            i = r.randrange(len(vals)) if size is None else size % len(vals)
+            ents = drop(b'regress-timeout')
+            n, u = vals[i]
+            put([b'regress-timeout', n, u] if r.random() < 0.5 else [b'regress-timeout', n + u])
+            out['valid'] = int(n) * {b's': 1, b'm': 60, b'h': 3600}[u] <= 2147483647 and int(n) <= 2147483647
+            out['label'] = 'timeout-boundary %s%s' % (n.decode() if len(n) < 20 else '%d digits ' % len(n), u.decode())
+        elif cls == 'dir-len':
+            # "/" spelled with "./" components: exists whatever its length up to PATH_MAX - 1; 4096 and more fail with ENAMETOOLONG
+            # and the diagnostic would quote the whole path (> 512 bytes, not transcribed) - stop at 4095
+            lens = [1, 2, 254, 255, 256, 1023, 1024, 1025, 4093, 4094, 4095]
+            n = size or r.choice(lens)
+            d = b'/' + b'./' * ((n - 1) // 2) + (b'/' if (n - 1) % 2 else b'')
+            assert len(d) == n
+            kw = {'robsd': b'bsd-srcdir', 'robsd-cross': b'bsd-srcdir', 'robsd-regress': b'bsd-srcdir', 'robsd-ports': b'robsddir', 'canvas': b'canvas-dir'}[mode]
+            had = [i for i, e in enumerate(ents) if e[0] == kw]
+            if had:
+                ents[had[0]] = [kw, q(d)]
+            else:
+                put([kw, q(d)])
+            out['label'] = 'dir-len %d' % n
+        elif cls == 'user-len':
+            n = size or r.choice([1, 8, 31, 32, 33, 255, 256])
+            kw = {'robsd': b'cvs-user', 'robsd-ports': b'ports-user', 'robsd-regress': b'regress-user'}[mode]
+            ents = drop(kw)
+            put([kw, q(self.sized(n, last=b'z'))])
+            out['valid'] = False
+            out['label'] = 'user-len %d' % n
+        elif cls == 'keyword-len':
+            # unknown keywords up to 256 bytes (the diagnostic quotes them), and the neighbours of a real keyword
+            near = [b'kee', b'keepp', b'keep-', b'keep-atti', b'keep-attic-', b'keep0', b'-keep', b'k', b'hoo', b'hooks', b'skipp', b'ski']
+            if size is None:
+                kw = r.choice(near) if r.random() < 0.5 else bytes(97 + (i * 5) % 26 for i in range(r.choice([1, 254, 255, 256])))
+            else:
+                kw = near[size % len(near)] if size < 100 else bytes(97 + (i * 5) % 26 for i in range(size))
+            put([kw, r.choice([b'1', b'yes', q(b'v')])])
+            out['valid'] = False
+            out['label'] = 'keyword-len %d' % len(kw) if len(kw) > 100 else 'keyword-neighbour'
+        elif cls == 'file-size':
+            # the whole file has exactly N bytes: a block boundary of the reader falls on the last token / behind the last newline
+            sizes = [4095, 4096, 4097, 8191, 8192, 8193, 65535, 65536, 65537]
+            n = size or r.choice(sizes)
+            ents = self.minimal(mode)
+            base = self.render(ents, plain=True)
+            how = r.choice(['leading-comment', 'inner-space', 'trailing-comment', 'trailing-newlines', 'no-final-newline'])
+            pad = n - len(base)
+            if how == 'leading-comment':
+                text = b'#' + b'c' * (pad - 2) + b'\n' + base
+            elif how == 'inner-space':
+                i = base.rindex(b' "') if b' "' in base else base.index(b' ')
+                text = base[:i] + b' ' * pad + base[i:]
+            elif how == 'trailing-comment':
+                text = base + b'#' + b't' * (pad - 1)
+            elif how == 'trailing-newlines':
+                text = base + b'\n' * pad
+            else:
+                text = b'#' + b'c' * (pad - 1) + b'\n' + base[:-1]
+            assert len(text) == n
+            out['label'] = 'file-size %d' % n
+        elif cls == 'file-shape':
+            shapes = ['empty', 'only-comment', 'only-comment-no-newline', 'only-whitespace', 'only-newlines', 'crlf', 'cr-only', 'no-final-newline',
+                      'nul-last', 'nul-first', 'bom', 'ff-vt']
+            sh = r.choice(shapes) if size is None else shapes[size % len(shapes)]
+            base = self.render(ents, plain=True)
+            text = {'empty': b'', 'only-comment': b'# nothing here\n', 'only-comment-no-newline': b'#', 'only-whitespace': b' \t \r\x0b\x0c ',
+                    'only-newlines': b'\n' * 300, 'crlf': base.replace(b'\n', b'\r\n'), 'cr-only': base.replace(b'\n', b'\r'),
+                    'no-final-newline': base[:-1], 'nul-last': base + b'\0', 'nul-first': b'\0' + base, 'bom': b'\xef\xbb\xbf' + base,
+                    'ff-vt': base.replace(b'\n', b'\x0c\x0b\n')}[sh]
+            out['valid'] = sh in ('crlf', 'cr-only', 'no-final-newline', 'ff-vt')
+            if sh in ('empty', 'only-comment', 'only-comment-no-newline', 'only-whitespace', 'only-newlines'):
+                ents = []
+            out['label'] = 'file-shape ' + sh
+        elif cls == 'line-number':
+            n = size or r.choice([254, 255, 256, 65534, 65535, 65536])
+            ents = self.minimal(mode)
+            text = b'\n' * n + self.render(ents, plain=True) + r.choice([b'bogus 1\n', b'keep "x"\n', b'keep 99999999999\n', b'skip {\n'])
+            out['valid'] = False
+            out['label'] = 'line-number %d' % n
+        elif cls == 'v-count':
+            n = self.pick_count() if size is None else size
+            out['vars'] = [b'v%d=%d' % (i, i) for i in range(n)]
+            out['stdin'] = b''.join(b'v%d=<${v%d}>\n' % (i, i) for i in sorted({0, n // 2, max(0, n - 2), max(0, n - 1)}) if i < n) + b'keep=<${keep}>\n'
+            out['label'] = 'v-count %d' % n
+        elif cls == 'v-len':
+            n = size or self.pick_len(big=big, cap=cap)
+            if r.random() < 0.5:
+                out['vars'] = [b'long=' + self.sized(n), b'lon=short']
+                out['stdin'] = b'long=<${long}>\nlon=<${lon}>\n'
+            else:
+                nm = self.sized(n, last=b'z')
+                out['vars'] = [nm + b'=whole', nm[:-1] + b'y=other'] + ([nm[:-1] + b'=prefix'] if n > 1 else [])
+                out['stdin'] = b'a=<${' + nm + b'}>\nb=<${' + nm[:-1] + b'y}>\n' + (b'c=<${' + nm[:-1] + b'}>\n' if n > 1 else b'')
+            out['label'] = 'v-len %d' % n
+        elif cls == 'v-family':
+            out['vars'] = [b'x=1', b'X=2', b'xx=3', b'x-=4', b'x-y=5', b'x=6=7', b'y==', b'z= ', b'w=a\nb']
+            r.shuffle(out['vars'])
+            out['stdin'] = b'x=<${x}>\nX=<${X}>\nxx=<${xx}>\nx-=<${x-}>\nx-y=<${x-y}>\ny=<${y}>\nz=<${z}>\nw=<${w}>\n'
+            out['label'] = 'v-family'
+        elif cls == 'template-shape':
+            shapes = ['empty', 'no-final-newline', 'only-newline', 'crlf', 'nul', 'line-len', 'line-count', 'refs-count', 'ref-at-block']
+            sub = None
+            if isinstance(size, (list, tuple)):
+                size, sub = size                              # (shape, its length / count / offset): corpus cases
+            sh = r.choice(shapes) if size is None else shapes[size % len(shapes)]
+            if sh == 'empty':
+                t = b''
+            elif sh == 'no-final-newline':
+                t = b'keep=<${keep}>\nncpu=<${ncpu}>'
+            elif sh == 'only-newline':
+                t = b'\n'
+            elif sh == 'crlf':
+                t = b'keep=<${keep}>\r\nncpu=<${ncpu}>\r\n'
+            elif sh == 'nul':
+                t = b'keep=<${keep}>\nnul=<\0${ncpu}>\nafter=<${arch}>\n'
+            elif sh == 'line-len':
+                n = sub or self.pick_len(LENS + [65535, 65536, 65537])
+                t = b'first=<${keep}>\n' + self.sized(n - 9) + b'<${keep}>\n' + b'last=<${ncpu}>\n'
+                sh += ' %d' % n
+            elif sh == 'line-count':
+                n = sub or r.choices([255, 256, 4095, 4096, 65535, 65536], [4, 4, 4, 4, 1, 1])[0]     # 65536 lines: 7 s of model time
+                t = b'k=<${keep}>\n' * (n - 1) + b'${nope}\n'             # the diagnostic names line n
+                sh += ' %d' % n
+            elif sh == 'refs-count':
+                n = self.pick_count() if sub is None else sub
+                t = b'many=' + b' '.join([b'${keep}', b'${ncpu}', b'${arch}'][i % 3] for i in range(n)) + b'\n'
+                sh += ' %d' % n
+            else:
+                at = sub or r.choice([4093, 4094, 4095, 4096, 8189, 8190, 8191, 8192, 65533, 65535, 65536])
+                t = b'x' * at + b'${keep}' + b'tail\nnext=<${ncpu}>\n'     # the reference starts at offset [at] of the input
+                sh += ' %d' % at
+            out['stdin'] = t
+            out['label'] = 'template-shape ' + sh
+        elif cls == 'execdir-len':
+            # EXECDIR from the environment becomes ${exec-dir} (every script path of the schedule starts with it)
+            n = size or self.pick_len([0] + LENS + [65535, 65536], cap=cap)
+            out['execdir'] = (b'/' + self.sized(n - 1)) if n else b''
+            out['stdin'] = b'exec-dir=<${exec-dir}>\nkeep=<${keep}>\n'
+            out['label'] = 'execdir-len %d' % n
+        else:
+            raise ValueError(cls)
+        out['ents'] = ents
+        out['text'] = text if text is not None else self.render(ents, plain=plain)
+        return out
 
     # ---- single-edit corruptions
     def corrupt(self, mode, ents, st):
